@@ -14,7 +14,7 @@ RULE = ('cases are batches of values pushed through the real WriteBuf/ReadBuf/SS
         'socket, and real audits whose packets the peer decodes strictly; a batch is non-trivial when it evaluated >= 1 value and every oracle '
         '(independent RFC 4251 encoder, decode(encode(v)) == v, re-encode == bytes, RFC 4253 s6 framing, own reader read-back) was reached; '
         'distinct = distinct batch specifications')
-REQUIRED = {'e2e_connections_reset_by_peer': 3, 'ssh1_packets_length_multiple_of_8': 3, 'mpint2_values': 1000, 'mpint1_values': 500, 'packets_framed': 100, 'packets_readback': 100, 'messages': 50, 'e2e_packets': 10}
+REQUIRED = {'ssh1_packets_with_nonzero_padding': 5, 'e2e_connections_reset_by_peer': 3, 'ssh1_packets_length_multiple_of_8': 3, 'mpint2_values': 1000, 'mpint1_values': 500, 'packets_framed': 100, 'packets_readback': 100, 'messages': 50, 'e2e_packets': 10}
 ASSUMPTIONS = ['harness/wire.py is a correct RFC 4251/4253 codec (self-tested against RFC examples and int.to_bytes)',
                'SSH-1 multiple precision integers carry no sign: mpint1 is checked on non-negative integers only']
 MANIFEST = {
@@ -351,11 +351,12 @@ def run_ssh1crc(c):
             break
     # a correctly checksummed SSH-1 packet is accepted and returned unchanged, a corrupted one is refused
     # body lengths of every residue modulo 8 (SSH-1 padding is 8 - length % 8, i.e. a full 8 bytes when the length is a multiple of 8)
-    res0 = 0
+    res0 = resr = 0
     for bad, blen in [(False, b) for b in list(range(3, 28)) + [267, 1019, rng.randint(10, 300)]] + [(True, rng.randint(10, 300)), (True, 11)]:
         body = rng.randbytes(blen)
         res0 += (blen + 5) % 8 == 0
-        pkt = wire.ssh1_packet(2, body, bad_crc=bad)
+        pkt = wire.ssh1_packet(2, body, bad_crc=bad, random_pad=(blen % 2 == 1))   # every other packet with non-zero ("random data") padding, which the check bytes cover as well
+        resr += blen % 2 == 1
         l = socket.socket()
         l.bind(('127.0.0.1', 0))
         l.listen(1)
@@ -385,7 +386,7 @@ def run_ssh1crc(c):
         t.join(3)
         l.close()
         n += 1
-    return viol, {'messages': n, 'ssh1_packets_length_multiple_of_8': res0}
+    return viol, {'messages': n, 'ssh1_packets_length_multiple_of_8': res0, 'ssh1_packets_with_nonzero_padding': resr}
 
 
 def run_e2e(c):
